@@ -114,6 +114,19 @@ pub fn pool<G: Cv>(env: &Env<G>, seed: u64) -> Vec<Inst<G>> {
             }
         }
     }
+    // multiples of the same shift: weights that are affine in the member's position (1 + k s,
+    // s (k + 1), ...) cancel residuals in the patterns (+d, -2d, +d) and (+2d, -d)
+    for (fname, which) in [("b", 0), ("e_blinding", 2)] {
+        for (sname, m) in [("+2", 2i64), ("-2", -2i64)] {
+            let mut p = parts.clone();
+            let dd = if m > 0 { G::ScalarField::from(m as u64) } else { -G::ScalarField::from((-m) as u64) };
+            match which {
+                0 => p.b += dd,
+                _ => p.sc[2] += dd,
+            }
+            out.push(mk(&format!("forged/{}{}", fname, sname), &prog, &comms, &p.to_bytes()));
+        }
+    }
     out
 }
 
@@ -138,7 +151,7 @@ pub fn main(o: &Opts) -> i32 {
     let maxlen = if o.tier == Tier::Quick { 3 } else { 4 };
     let replay: Option<Value> = o.replay.as_ref().map(|p| serde_json::from_str(&std::fs::read_to_string(p).unwrap()).unwrap());
     rep.curves = CURVES.iter().map(|s| s.to_string()).collect();
-    rep.rule = "all ordered batches up to the length bound over the instance pool (valid proofs of several padded sizes and phases, a bad-witness proof, and pairs of the same valid proof with a final or blinding scalar shifted by +d and -d); oracle: batch_verify is Ok iff every member verifies on its own (each on a fresh verifier); non-trivial = batches with at least one invalid member".into();
+    rep.rule = "all ordered batches up to the length bound over the instance pool (valid proofs of several padded sizes and phases, a bad-witness proof, and families of the same valid proof with a final or blinding scalar shifted by +d, -d, +2d, -2d); oracle: batch_verify is Ok iff every member verifies on its own (each on a fresh verifier); non-trivial = batches with at least one invalid member".into();
     let start = rep.start;
     let mut skipped = 0;
     for curve in CURVES {
@@ -201,6 +214,6 @@ pub fn main(o: &Opts) -> i32 {
         rep.caps_hit.push(format!("time budget reached: {} batches skipped", skipped));
     }
     rep.exhaustive = skipped == 0;
-    rep.assumptions = vec!["the batch RNG is a seeded ChaCha; a broken caller RNG is out of scope".into()];
+    rep.assumptions = vec!["the batch RNG is a seeded ChaCha; a broken caller RNG is out of scope".into(), "statements range over points of the prime-order subgroup (commitments, Pedersen bases, generators); DESIGN 8.6 lesson 11 explains why the relations are not defined outside it".into()];
     rep.finish()
 }
